@@ -114,7 +114,7 @@ theorem example_add_delete :
 def hist0 : List Ev := [Ev.defBody "@m" {}, .req (.tags "r" "" ""), .req (.bDel "q" "x"), .req (.mDel "q" "t")]
 
 theorem hist0_adm : AdmHist (fun _ => False) "r" { conf := {} } hist0 := by
-  refine And.intro trivial (And.intro trivial (And.intro ?_ (And.intro ?_ trivial)))
+  refine And.intro (fun _ _ => subjOf_default) (And.intro trivial (And.intro ?_ (And.intro ?_ trivial)))
   · show "q" ≠ "r"; decide
   · intro h; exact absurd h (by decide)
 end Upd.Rf
